@@ -3,7 +3,9 @@ enumerator with mockturtle's interface.  The family and order of cuts handed to 
 reshaped by the harness through `CUT_HOOK` (C04 quantifies over admissible cut families)."""
 import itertools
 
-CUT_HOOK = None   # callable(dict node -> list of cuts) -> dict, set by the harness
+CUT_HOOK = None   # callable(dict node -> list of cuts) -> dict, set by the harness (reordering only)
+CUT_FILTER = None  # callable(node, list of non-trivial cuts) -> kept sub-list; applied *during* enumeration, so that the
+                   # cuts of a node are merged from the kept cuts of its fan-ins (as mockturtle's cut_limit does)
 
 
 def _parse(text):
@@ -61,6 +63,8 @@ def enumerate_cuts(circuit_text, cut_size, cut_limit, fanout_size):
                 if len(leaves) <= cut_size and leaves not in found:
                     found.append(leaves)
         found = found[:max(cut_limit - 1, 0)]
+        if CUT_FILTER is not None:
+            found = list(CUT_FILTER(n, found))
         found.append((n,))
         cuts[n] = found
     res = {n: [list(c) for c in cs] for n, cs in cuts.items()}
